@@ -121,6 +121,31 @@ CHECKS["C18"] = dict(
          "without the pre-filter agree on symbolic corpora.",
     design="4/C18", technique="symbolic execution of unpack + equality + regex matching over symbolic candidate bytes, CrossHair/z3")
 
+CHECKS["C13"] = dict(
+    text="Bounded symbolic model checking of histories over several live packets: a bystander (parsed from symbolic bytes or default) "
+         "is observed before/after every history of 2 (thorough 3) operations (construct, unpack of symbolic bytes, attribute sets with "
+         "symbolic values, list append, pack) on other packets of the same / related classes (shared sub-packet class, prototype, default "
+         "list, regex-delimited Data); aliasing and purity obligations; a shared-write monitor asserts that NO path of unpack/pack changes "
+         "an attribute of a field object shared by the class. Thread schedules are not explored: 'no shared writes' is the sufficient "
+         "condition offered; the one write found (F2) is reported as KNOWN-FINDING.",
+    design="4/C13", note="Thread interleavings are outside this technique (CrossHair is single-threaded); only the no-shared-write "
+    "sufficient condition is decided. ", technique="symbolic execution of operation histories + write monitor on shared field objects, CrossHair/z3")
+CHECKS["C15"] = dict(
+    text="Real metaclass + CodeGenerator.generate_code under step-counting wrappers around the real os/open/SourceFileLoader (real files, "
+         "real byte-code): (a) cached cookie = arbitrary symbolic 40-char string: z3 decides 'foreign functions installed => cookie equal'; "
+         "(b) all histories of 3 definitions over 7 same-named declarations (same-size sources, changed options, generation off/on) x "
+         "same/fresh process x byte-code on/off x frozen mtime; (c) cache seeded with source of declaration j and trusted stale byte-code of "
+         "declaration jp: every definition succeeds and behaves like its generic twin. Indices are solver variables; each path is concrete.",
+    design="4/C15", technique="CrossHair path enumeration over cache states/histories on the real import system + symbolic cookie string (z3)")
+CHECKS["C16"] = dict(
+    text="Same environment: the defining process dies after file-system step k (16 steps) with a torn write of c bytes (quick: 17 positions, "
+         "thorough: every byte), then a fresh process defines each declaration; and a second process' write side (7 steps) is interleaved "
+         "at one (thorough: two) cut point(s) of our 14 operations, cache initially empty or stale. Asserted: the later / concurrent "
+         "definition succeeds and behaves per its own declaration. The 7 failure classes of the non-atomic update (F7) are KNOWN-FINDINGs; "
+         "any other failure class is a violation.",
+    design="4/C16", note="Bounded: 1 crash, 2 processes, <=2 scheduling cut points; OS semantics 'a write may be torn at any byte, "
+    "operations otherwise atomic'. ", technique="CrossHair path enumeration over crash step / torn length / schedule cut points on real files, replay on the real FS")
+
 NA_REASON = "check not built yet in this round (planned: DESIGN.md section 4); no claim is made"
 
 
